@@ -399,6 +399,11 @@ def case_api(ctx, inp):
     try:
         if op == "map":
             chk("map", list(b.map(num)), [num(x) for x in seq])
+            b2 = mk_bag([[num(x) * 10 for x in p] for p in parts])
+            chk("map over two aligned bags", list(db.map(lambda x, y: (num(x), y), b, b2)), [(num(x), num(x) * 10) for x in seq])
+            if seq:
+                chk("map with an Item keyword", list(b.map(lambda x, m=0: num(x) - m, m=b.map(num).max())),
+                    [num(x) - max(map(num, seq)) for x in seq])
             chk("map with kwargs", list(b.map(lambda x, y=0: (num(x), y), y=5)), [(num(x), 5) for x in seq])
         elif op == "starmap":
             pairs = [(num(x), i) for i, x in enumerate(seq)]
@@ -446,11 +451,25 @@ def case_api(ctx, inp):
                 got = [nb.mean().compute(), nb.var().compute(), nb.std().compute()]
                 if any(abs(g - w) > 1e-9 * (1 + abs(w)) for g, w in zip(got, [mean, var, math.sqrt(var)])):
                     ctx.fail("mean/var/std differ", observed=got, expected=[mean, var, math.sqrt(var)])
+                if len(vals) >= 2:
+                    var1 = var * len(vals) / (len(vals) - 1)
+                    got1 = [nb.var(ddof=1).compute(), nb.std(ddof=1).compute()]
+                    if any(abs(g - w) > 1e-9 * (1 + abs(w)) for g, w in zip(got1, [var1, math.sqrt(var1)])):
+                        ctx.fail("var/std(ddof=1) differ", observed=got1, expected=[var1, math.sqrt(var1)])
         elif op == "foldby":
             want = {}
             for x in seq:
                 want[key(x)] = want.get(key(x), 0) + num(x)
             chk("foldby", dict(b.foldby(key, lambda a, x: a + num(x), 0, operator.add, 0, split_every=se)), want)
+            # without combine / combine_initial (merge_with(reduce(combine))) and without any initial
+            chk("foldby (no combine_initial)", dict(b.foldby(key, lambda a, x: a + num(x), 0, operator.add, split_every=se)), want)
+            if kind == "int":   # binop doubles as combine only when totals and elements have the same type
+                chk("foldby (binop only)", dict(b.foldby(key, operator.add, 0, split_every=se)), want)
+            nk = lambda v: v % 3
+            wantn = {}
+            for v in map(num, seq):
+                wantn[nk(v)] = wantn[nk(v)] + v if nk(v) in wantn else v
+            chk("foldby (no initial)", dict(b.map(num).foldby(nk, operator.add, split_every=se)), wantn)
         elif op == "groupby":
             want = collections.defaultdict(list)
             for x in seq:
@@ -481,6 +500,13 @@ def case_api(ctx, inp):
             kw = inp["kw"]
             r = db.from_sequence(seq, **kw)
             chk("from_sequence", list(r), seq)
+            sizes_r = [len(p) for p in parts_of(r)]
+            if kw.get("npartitions") and seq and len(seq) <= 100:
+                ps = int(math.ceil(len(seq) / kw["npartitions"]))
+                chk("from_sequence(npartitions) partition sizes", sizes_r,
+                    [ps] * (len(seq) // ps) + ([len(seq) % ps] if len(seq) % ps else []))
+            if not kw and seq and len(seq) <= 100:
+                chk("from_sequence default: one element per partition", sizes_r, [1] * len(seq))
             if kw.get("partition_size"):
                 chk("partition sizes", [len(p) for p in parts_of(r)] if seq else [0],
                     ([kw["partition_size"]] * (len(seq) // kw["partition_size"]) + ([len(seq) % kw["partition_size"]] if len(seq) % kw["partition_size"] else [])) if seq else [0])
@@ -562,13 +588,44 @@ def _sync(fn):
     return wrapped
 
 
+def case_from_sequence(ctx, inp):
+    """from_sequence(seq, npartitions= / partition_size=): the sequence in order, cut into equal consecutive
+    pieces of the documented size."""
+    import dask.bag as db
+    n, np_, ps = inp["n"], inp.get("npartitions"), inp.get("partition_size")
+    seq = list(range(100, 100 + n))
+    kw = {}
+    if np_:
+        kw["npartitions"] = np_
+    if ps:
+        kw["partition_size"] = ps
+    r = db.from_sequence(seq, **kw)
+    got = parts_of(r)
+    if [x for p in got for x in p] != seq:
+        ctx.fail("from_sequence changed the sequence", observed=got)
+    if ps:
+        size = ps
+    elif np_:
+        size = int(math.ceil(n / np_)) if n <= 100 else max(1, n // np_)
+    else:
+        size = 1 if n <= 100 else max(1, math.ceil(math.sqrt(n) / 10))
+    want = ([seq[i:i + size] for i in range(0, n, size)] if n else []) or [[]]
+    if got != want:
+        ctx.fail("from_sequence partitions are not consecutive pieces of the documented size", observed=got, expected=want)
+    if r.npartitions != len(want):
+        ctx.fail("from_sequence npartitions attribute differs from the number of partitions", observed=r.npartitions)
+    if np_ and n and n <= 100 and len(want) > np_:
+        ctx.fail("from_sequence(npartitions=k) produced more than k partitions", observed=len(want))
+    ctx.branch("from_sequence:" + ("partition_size" if ps else "npartitions" if np_ else "default"))
+
+
 def case_tree(ctx, inp):
     """Runtime structure of Bag.reduction (skipped partitions, grouping, tasks per level) — shared with C49."""
     from props.c49 import case_tree as _t
     _t(ctx, inp)
 
 
-CASES = {"tree": case_tree, "accumulate": case_accumulate, "take": case_take, "repartition": case_repartition, "reduce": case_reduce,
+CASES = {"from_sequence": case_from_sequence, "tree": case_tree, "accumulate": case_accumulate, "take": case_take, "repartition": case_repartition, "reduce": case_reduce,
          "stagesk": case_stagesk, "digits": case_digits, "groupby_tasks": case_groupby_tasks,
          "groupby_api": case_groupby_api, "product_zip": case_product_zip, "api": case_api}
 CASES = {k: _sync(v) for k, v in CASES.items()}
@@ -620,15 +677,27 @@ def generate(ctx):
     for _ in range(ctx.n(25, 300)):
         parts = gen_parts(rng, lo=0)
         ndisk[0] += 1
-        yield "groupby_api", {"parts": parts, "km": rng.randint(1, 6),
-                              "method": "disk" if ndisk[0] % 8 == 0 and (th or ndisk[0] < 20) else "tasks",
-                              "mb": rng.choice([None, 2, 3]), "nout": rng.choice([None, 1, 3])}
+        disk = ndisk[0] % 8 == 0 and (th or ndisk[0] < 20)
+        if disk:   # few (slow: fsync per partition) but collision-heavy: several keys per output file
+            parts = [[rng.randint(0, 30) for _ in range(rng.randint(2, 5))] for _ in range(rng.randint(2, 4))]
+        yield "groupby_api", {"parts": parts, "km": rng.randint(4, 7) if disk else rng.randint(1, 6),
+                              "method": "disk" if disk else "tasks",
+                              "mb": rng.choice([None, 2, 3]), "nout": rng.choice([1, 2]) if disk else rng.choice([None, 1, 3])}
     # function level
     for _ in range(ctx.n(120, 1500)):
         parts = gen_parts(rng, maxparts=rng.choice([4, 9, 17, 30]), maxlen=3, lo=0, hi=40)
         km = rng.randint(1, 8)
         yield "groupby_tasks", {"parts": parts, "km": km, "hashes": [rng.randint(0, rng.choice([5, 50, 10 ** 6])) for _ in range(km)],
                                 "mb": rng.choice([None, 2, 2, 3, 4])}
+    for n in range(0, 14 if not th else 40):
+        for k in range(1, 8 if not th else 12):
+            yield "from_sequence", {"n": n, "npartitions": k}
+            yield "from_sequence", {"n": n, "partition_size": k}
+        yield "from_sequence", {"n": n}
+    for n in (101, 150, 399, 1000):
+        for k in (1, 3, 7, 50):
+            yield "from_sequence", {"n": n, "npartitions": k}
+        yield "from_sequence", {"n": n}
     for n in range(1, 5 if not th else 8):
         for mask in range(2 ** n):
             yield "tree", {"sizes": [(mask >> i) & 1 for i in range(n)], "se": rng.choice([2, 3, None, False])}
